@@ -182,7 +182,7 @@ def stack_budget(chk, F, cg, guarded_sccs):
 def run(chk, tier):
     F = lib.get_facts()
     cg = F.callgraph()
-    table = json.load(open(os.path.join(lib.VERIF, "tables", "panic_sites.json")))["rows"]
+    table = panic_edges.load_table()
     chk.rule("R01.2", "every Assert terminator / panicking-API call in rscel + rscel-to-sql bodies is discharged by D-derive, D-dispatch or a reviewed table row (count per function and construct)")
     chk.rule("R01.3", "panic-looking callee names must be classified in PANIC_API or SAFE_API")
     chk.rule("R01.4", "call-graph SCCs: structural-over-value, or cut by a dominating depth guard; no fresh depth counter on a guarded cycle")
@@ -196,15 +196,12 @@ def run(chk, tier):
         chk.bad("R01.3", "%s|%s" % (bp, lib.short(callee)), "unclassified panic-like callee %s" % callee, "%s:%d" % (f, line))
     ndisp = 0
     seen_keys = set()
-    # a reviewed row speaks about the code of a function; the same construct inside one of that function's closures (code moved into a local
-    # closure) is covered by the function's row, with the occurrences counted together
+    # a reviewed row speaks about the code of a function including its closures: rows and sites are keyed by the function (closures renumber
+    # and move with every restructuring), occurrences are counted together
     merged = collections.defaultdict(list)
     for (bp, sig), sites in out.items():
-        root = re.sub(r"(::\{closure#\d+\})+$", "", bp)
-        if root != bp and (bp + "|" + sig) not in table and (root + "|" + sig) in table and root in F.by_path:
-            merged[(root, sig)].extend(sites)
-        else:
-            merged[(bp, sig)].extend(sites)
+        root = panic_edges.root_fn(bp)
+        merged[(root if root in F.by_path else bp, sig)].extend(sites)
     out = merged
     for (bp, sig), sites in sorted(out.items()):
         where = ", ".join("%s:%d" % (f, l) for l, f in sites[:4])
